@@ -188,8 +188,9 @@ static void c15_batch(long idx, long n, uint64_t seed) {
         if (wave2) { nreq += wave2; double e2 = lv::now() + 5.0 * lf; while (!allSettled() && lv::now() < e2) lv::msleep(10); }
         // stampede rounds: with every connection idle, several application threads call send() at the same instant (requests
         // built beforehand, threads released by a spin barrier), so the idle->used claim of one connection is contended
-        if (scenario == 0 && allSettled()) {
-            int T = r.range(3, 6), rounds = (int)g_opts.num("stampede", 150); bool stuck = false;
+        if ((scenario == 0 || scenario == 4) && allSettled()) {
+            // half of the time more threads than connections, so that the overflow queue and its hand-over are part of every round
+            int T = r.chance(1, 2) ? std::min(10, maxConn + r.range(1, 3)) : r.range(3, 6), rounds = (int)g_opts.num("stampede", 400); bool stuck = false;
             for (int round = 0; round < rounds && !stuck; round++) {
                 int first = nreq;
                 for (int t = 0; t < T; t++) { out.emplace_back(new Outcome()); beh.push_back(B_IMMEDIATE); timeoutMs.push_back(0); }
